@@ -227,13 +227,16 @@ class _Parser:
         return self.absolute(base, _unquote(pathtok))
 
     # ---- event sink ----
-    def emit(self, ev):
+    def sink(self):
         if self.cur < 0:
-            self.prelude.append(ev)
-        elif self.in_op:
-            self.events[self.cur].append(ev)
-        else:
-            self.after.setdefault(self.cur, []).append(ev)
+            return self.prelude
+        return self.events[self.cur] if self.in_op else self.after.setdefault(self.cur, [])
+
+    def emit(self, ev):
+        lst = self.sink()
+        if ev.startswith("OUTSIDE ") and lst and lst[-1] == ev:
+            return                                      # same finding from the name and from the fd
+        lst.append(ev)
 
     def mut(self, call, abspath):
         """canonical name of the target of a mutating call; emits OUTSIDE and returns None if outside."""
@@ -510,8 +513,7 @@ class _Parser:
         if q is None:
             return
         head = f"copy {self.src(s)} {q} "
-        lst = self.prelude if self.cur < 0 else (self.events[self.cur] if self.in_op
-                                                 else self.after.setdefault(self.cur, []))
+        lst = self.sink()
         if lst and lst[-1].startswith(head) and lst[-1][len(head):].isdigit():
             lst[-1] = head + str(int(lst[-1][len(head):]) + val)
         else:
